@@ -185,9 +185,9 @@ def _select(ck: Checker) -> None:
         if t.kind == "test" and norm(t.ast) in ("name == 'md5-dos2unix'", "'md5-dos2unix' == name"):
             for i in g2.reach([d for lab, d in t.succ if lab == "T"]):
                 n = g2.nodes[i]
-                if n.kind == "stmt" and isinstance(n.ast, ast.Assign) and isinstance(n.ast.value, ast.Constant) and n.ast.value.value == "md5":
+                if n.kind == "stmt" and isinstance(n.ast, (ast.Assign, ast.AnnAssign)) and isinstance(n.ast.value, ast.Constant) and n.ast.value.value == "md5":
                     # the remapped name is what the hashlib lookup uses
-                    tgt = norm(n.ast.targets[0])
+                    tgt = norm(n.ast.targets[0] if isinstance(n.ast, ast.Assign) else n.ast.target)
                     lookups = [x for x in g2.nodes.values() for c in calls_at(x) if (call_name(c) == "getattr" and len(c.args) >= 2 and norm(c.args[1]) == tgt) or (is_method_call(c, "new") and c.args and norm(c.args[0]) == tgt)]
                     okm = okm or bool(lookups)
     ck.require(okm, "C14.select", gh, gh.node, "md5-dos2unix is hashed with md5", "get_hasher no longer maps 'md5-dos2unix' to md5")
